@@ -90,16 +90,21 @@ def judge(pos, w, box, npart, coord, sort, res, R=None, xs=None, ambiguous=False
 
 def call(pp, pos, w, npart, box, coord, nthread, sort):
     p0, w0 = pos.copy(), None if w is None else w.copy()
-    with warnings.catch_warnings():
-        warnings.simplefilter('ignore')
-        res = pp(pos, npart, box, weights=w, coord=coord, nthread=nthread, sort=sort)
+    try:
+        with warnings.catch_warnings():
+            warnings.simplefilter('ignore')
+            res = pp(pos, npart, box, weights=w, coord=coord, nthread=nthread, sort=sort)
+    except Exception as e:  # noqa  (every input the harness builds is valid: an exception is a failure to return the permutation)
+        return (np.zeros((0, 3), dtype=pos.dtype), np.zeros(0, dtype=np.int64), None), f'raises {type(e).__name__}: {e}'
     if not np.array_equal(pos, p0) or (w is not None and not np.array_equal(w, w0)):
         return res, 'input array modified'
     return res, None
 
 
 def key_of(what, n, nthread):
-    if 'modified' in what:
+    if what.startswith('raises'):
+        k = 'raises'
+    elif 'modified' in what:
         k = 'input-modified'
     elif 'weights' in what:
         k = 'weights'
